@@ -295,6 +295,8 @@ AUDIT = {
                              'assistant.list_packages (the tracer also lists the callers of that same-named function: they receive '
                              'the sorted list or [] -- `plist` -- and return it as is or re-union it and sort again)'),
     ('project.py', 'Project.check_changes', 'self._module_cache.values()'): (M, '', 'PIN', 'any(...)'),
+    ('project.py', 'Project._renormed', 'self._norm_cache.items()'):
+        (M, '', 'PIN', 'any(parts changed for root, parts in items): a boolean, independent of the iteration order'),
     ('scope.py', 'Scope.__init__', 'set()'):
         (B, '', 'PIN', 'locals / globals: add, remove, in, difference; {n: names[n] for n in locals} builds the class attribute dict '
                        '(read by key, listed through assist)'),
@@ -342,6 +344,7 @@ PINS = {
     ('project.py', 'Project.__init__', 'set(dyn_modules or [])'): ('018c17cee725',),
     ('project.py', 'Project.list_packages', 'set()'): ('c93883abcb17',),
     ('project.py', 'Project.check_changes', 'self._module_cache.values()'): ('15161338bf82',),
+    ('project.py', 'Project._renormed', 'self._norm_cache.items()'): ('915a1da17991',),
     ('scope.py', 'Scope.__init__', 'set()'): ('bb25f8f19765', 'f00aa2331fa8'),
     ('scope.py', 'SourceScope.resolve_star_imports', 'iterkeys(module._attrs)'): ('5468ce19e3fc',),
     ('scope.py', 'Flow.parent_names', 'set()'): ('9b34d7fd9035',),
